@@ -18,8 +18,8 @@ answer : `ok <pct(compact JSON)>`   the obfuscated document; a hashed leaf is th
          `whole`                    the HAR collector replaced the unparsable body by `H(body)`
          `empty`                    the HAR collector returned the empty body unchanged
 
-The JSON reader below covers the subset the generator emits: objects, arrays, strings with the
-escapes `\" \\ \/ \b \f \n \r \t \uXXXX` (no surrogates), numbers `-?int(.frac)?` with at most 15
+The JSON reader below covers the subset the generator emits: objects, arrays, strings (values keep
+their LEXEME — every escape as written; names are decoded by the model's `unescape`), numbers `-?int(.frac)?` with at most 15
 digits (lexeme kept), `true`/`false`/`null`.
 -/
 open LunarVerif LunarVerif.Proto LunarVerif.C16
@@ -32,33 +32,17 @@ def skipWs : List Char → List Char
   | c :: r => if isWs c then skipWs r else c :: r
   | [] => []
 
-def hex4 : List Char → Option (Nat × List Char)
-  | a :: b :: c :: d :: r =>
-    match hexVal a, hexVal b, hexVal c, hexVal d with
-    | some w, some x, some y, some z => some (((w * 16 + x) * 16 + y) * 16 + z, r)
-    | _, _, _, _ => none
-  | _ => none
-
-/-- after the opening quote -/
-partial def parseStr (acc : List Char) : List Char → Option (Str × List Char)
+/-- after the opening quote: the LEXEME up to the closing quote (a quote preceded by a backslash escape
+    does not close), escapes untouched -/
+def scanLexeme (acc : List Char) : List Char → Option (Str × List Char)
   | [] => none
   | '"' :: r => some (acc.reverse, r)
-  | '\\' :: e :: r =>
-    match e with
-    | '"' => parseStr ('"' :: acc) r
-    | '\\' => parseStr ('\\' :: acc) r
-    | '/' => parseStr ('/' :: acc) r
-    | 'b' => parseStr (Char.ofNat 8 :: acc) r
-    | 'f' => parseStr (Char.ofNat 12 :: acc) r
-    | 'n' => parseStr ('\n' :: acc) r
-    | 'r' => parseStr ('\r' :: acc) r
-    | 't' => parseStr ('\t' :: acc) r
-    | 'u' =>
-      match hex4 r with
-      | some (n, r') => if 0xD800 ≤ n && n ≤ 0xDFFF then none else parseStr (Char.ofNat n :: acc) r'
-      | none => none
-    | _ => none
-  | c :: r => parseStr (c :: acc) r
+  | '\\' :: e :: r => scanLexeme (e :: '\\' :: acc) r
+  | c :: r => scanLexeme (c :: acc) r
+
+/-- a field name: decoded -/
+def parseStr (_ : List Char) (s : List Char) : Option (Str × List Char) :=
+  (scanLexeme [] s).map fun (lx, r) => (unescape lx, r)
 
 def isDigit (c : Char) : Bool := '0' ≤ c && c ≤ '9'
 
@@ -88,7 +72,7 @@ partial def parseVal (s : List Char) : Option (Json × List Char) :=
     match skipWs r with
     | ']' :: r' => some (.arr [], r')
     | r' => parseElems [] r'
-  | '"' :: r => (parseStr [] r).map fun (x, r') => (.str x, r')
+  | '"' :: r => (scanLexeme [] r).map fun (x, r') => (.str x, r')
   | 't' :: 'r' :: 'u' :: 'e' :: r => some (.bool true, r)
   | 'f' :: 'a' :: 'l' :: 's' :: 'e' :: r => some (.bool false, r)
   | 'n' :: 'u' :: 'l' :: 'l' :: r => some (.null, r)
@@ -140,20 +124,23 @@ partial def printJson : Json → String
   | .bool true => "true"
   | .bool false => "false"
   | .num l => String.ofList l
-  | .str s => escStr s
+  | .str lexeme => "\"" ++ String.ofList lexeme ++ "\""
   | .arr xs => "[" ++ ",".intercalate (xs.map printJson) ++ "]"
   | .obj kvs => "{" ++ ",".intercalate (kvs.map fun (k, v) => escStr k ++ ":" ++ printJson v) ++ "}"
 end
 
-/-- The hash as the driver sees it: a tagged copy of the pre-image. -/
-def Hm (s : Str) : Str := Char.ofNat 1 :: 'H' :: '(' :: (s ++ [')'])
+/-- canonical escaping of a decoded string into a lexeme (same rules as `escStr`, without the quotes) -/
+def lexEsc (s : Str) : Str := ((escStr s).toList.drop 1).dropLast
+
+/-- The hash as the driver sees it: the LEXEME `\\u0001H(` canonical-escaping of the pre-image `)`. -/
+def Hm (s : Str) : Str := "\\u0001H(".toList ++ lexEsc s ++ [')']
 
 def parseSide (s : String) : Option Side :=
   if s == "raw" then some .raw else if s == "req" then some .req else if s == "resp" then some .resp else none
 
 def parseEx (s : String) : Option (List Str) :=
   match parseJson s with
-  | some (.arr xs) => xs.mapM fun x => match x with | .str e => some e | _ => none
+  | some (.arr xs) => xs.mapM fun x => match x with | .str e => some (unescape e) | _ => none
   | _ => none
 
 structure Op where
@@ -276,7 +263,7 @@ def judgeOp (o : Op) (out : String) : Option String :=
     | some d, .doc o' =>
       let fid := (finding o.side o.ex d).getD "-"
       some (fid ++ " spec-violated side=" ++ sideName o.side
-        ++ " ex=" ++ pctEnc (printJson (.arr (o.ex.map .str))) ++ " doc=" ++ pctEnc (short (printJson d))
+        ++ " ex=" ++ pctEnc (printJson (.arr (o.ex.map fun e => .str (lexEsc e)))) ++ " doc=" ++ pctEnc (short (printJson d))
         ++ " out=" ++ pctEnc (short (printJson o')))
     | some _, _ => some ("- no-obfuscated-document-for-a-json-body side=" ++ sideName o.side ++ " answer=" ++ pctEnc (short out))
     | none, _ => some ("- non-json-body-not-hidden side=" ++ sideName o.side ++ " answer=" ++ pctEnc (short out))
@@ -289,7 +276,7 @@ def judgeTxn (t : TxnOp) (out : String) : Option String :=
   if holdsTxn Hm t.ex (inputOf t.reqText) (inputOf t.respText) (a, b) then none
   else
     let bad := if holdsOutcome Hm .req t.ex (inputOf t.reqText) a then "response" else "request"
-    some ("- spec-violated-in-transaction body=" ++ bad ++ " ex=" ++ pctEnc (printJson (.arr (t.ex.map .str)))
+    some ("- spec-violated-in-transaction body=" ++ bad ++ " ex=" ++ pctEnc (printJson (.arr (t.ex.map fun e => .str (lexEsc e))))
       ++ " req=" ++ pctEnc (short t.reqText) ++ " resp=" ++ pctEnc (short t.respText) ++ " answer=" ++ pctEnc (short out))
 
 /-- overlapping calls: each answer against its own call (`Spec.holdsMany`) -/
